@@ -382,6 +382,9 @@ impl<T, S: Status, A: Clone + Allocator> RawTable<T, S, A> {
         for slot in self.data.iter_mut() {
             let status = slot.status;
             slot.status = S::FREE;
+            if status != S::FREE {
+                self.free += 1;
+            }
             if status.is_hash() {
                 // SAFETY: hash status means that the data is initialized. We
                 // marked the slot as `FREE` above, so there is no danger of
@@ -405,6 +408,9 @@ impl<T, S: Status, A: Clone + Allocator> RawTable<T, S, A> {
         for slot in self.data.iter_mut() {
             let status = slot.status;
             slot.status = S::FREE;
+            if status != S::FREE {
+                self.free += 1;
+            }
             if status.is_hash() {
                 self.len -= 1;
                 if self.len == 0 {
